@@ -1111,6 +1111,7 @@ class SKEData(Packet):
 
     def __copy__(self):
         skd = self.__class__()
+        skd.header = copy.copy(self.header)
         skd.ct = self.ct[:]
         return skd
 
@@ -1601,6 +1602,7 @@ class IntegrityProtectedSKEDataV1(IntegrityProtectedSKEData):
 
     def __copy__(self):
         skd = self.__class__()
+        skd.header = copy.copy(self.header)
         skd.ct = self.ct[:]
         return skd
 
